@@ -1121,3 +1121,7 @@ ICM = "codemodder/codemods/imported_call_modifier.py"
 add("C13", "definitions-without-included-line-not-traversed", ICM,
     [("    def leave_Call(", "    def visit_FunctionDef(self, node):\n        pos = self.node_position(node)\n        return not self.line_include or any(pos.start.line <= n <= pos.end.line for n in self.line_include)\n\n    def leave_Call(")],
     "fire", "R-NO-LINE-PRUNE", "visit_FunctionDef")
+RFI = "core_codemods/remove_future_imports.py"
+add("C08", "future-imports-kept-from-allow-list", RFI,
+    [("                    if name.name.value not in DEPRECATED_NAMES", "                    if name.name.value in CURRENT_NAMES")],
+    "fire", "R-FUTURE-DROPS-ONLY-DEPRECATED", "leave_ImportFrom")
